@@ -1,2 +1,100 @@
-(* C16 - placeholder while the proofs are being written *)
-From MafVerif Require Import lib.Base.
+(* C16 - Reading arbitrary text terminates and fails only in documented ways.
+   Property theorems only; proofs are in proofs/ReaderTotal.v and
+   proofs/ReaderLines.v.  `read_all` (MafReader(lines, ...) then iterating to
+   exhaustion) is a total function defined by structural recursion on the list
+   of lines: that it is defined for every input is the termination claim.
+   The theorems hold for every column semantics `sem` (what building and
+   validating a typed column does), every registry of schemes whose column
+   names are distinct (schemes are dicts), every text, every mode. *)
+From MafVerif Require Import lib.Base lib.Str model.RecordOps model.Validation model.Header
+  model.RecordParse model.Reader spec.SpecHeader proofs.ReaderTotal proofs.ReaderLines.
+
+(* for sort keys that are total up to the documented ValueError (property C08) *)
+Theorem C16_reading_is_total :
+  forall (C W K : Type) (sem : colsem C W) (registry : list (scheme (cls C)))
+         (key_of : sorder -> list str -> rec (payload C W) -> res K) (key_lt : K -> K -> bool),
+    (forall o cs r, match key_of o cs r with Ok _ => True | Raise e => e = ValueError end) ->
+    Forall scheme_wf registry ->
+    forall (lines : list str) (m : option mode) (override : option (scheme (cls C))),
+      wf_override override ->
+      match read_all sem registry key_of key_lt lines m override with
+      | Ok rs => length rs = data_line_count lines           (* one record per line after the column line *)
+      | Raise (MafFormat _ _) => m = Some Strict             (* only Strict raises the format exception *)
+      | Raise ValueError => declares_sortable registry lines (* only under a declared coordinate-type order *)
+      | Raise _ => False                                     (* nothing else escapes *)
+      end.
+Proof.
+  intros C W K sem registry key_of key_lt Hkey Hreg lines m override Hov.
+  exact (read_all_total sem registry key_of key_lt Hkey Hreg lines m override Hov).
+Qed.
+Print Assumptions C16_reading_is_total.
+
+(* the same for the concrete keys of sort_order.py as modelled (no hypothesis
+   on keys left): chromosome by name or contig index, positions by int(),
+   barcodes as text; `py_int` is the host's int() *)
+Theorem C16_reading_is_total_concrete_keys :
+  forall (C W : Type) (sem : colsem C W) (py_int : str -> option Z) (registry : list (scheme (cls C))),
+    Forall scheme_wf registry ->
+    forall (lines : list str) (m : option mode) (override : option (scheme (cls C))),
+      wf_override override ->
+      match read_all sem registry (skey_of sem py_int) skey_lt lines m override with
+      | Ok rs => length rs = data_line_count lines
+      | Raise (MafFormat _ _) => m = Some Strict
+      | Raise ValueError => declares_sortable registry lines
+      | Raise _ => False
+      end.
+Proof.
+  intros C W sem py_int registry Hreg lines m override Hov.
+  exact (read_all_total sem registry (skey_of sem py_int) skey_lt (skey_of_total sem py_int) Hreg lines m override Hov).
+Qed.
+Print Assumptions C16_reading_is_total_concrete_keys.
+
+(* "declares a sortable order" in terms of the header spec: the first
+   well-formed sort.order pragma among the pragma lines names Coordinate or
+   BarcodesAndCoordinate *)
+Theorem C16_sortable_means_declared :
+  forall (C : Type) (registry : list (scheme (cls C))) (lines : list str),
+    declares_sortable registry lines ->
+    exists v, kept_value SP_SORT (fst (expected_header (map rstrip_crlf (fst (split_file lines))))) = Some v /\
+              In v SP_COORD_NAMES.
+Proof. intros C registry lines. exact (declares_sortable_spec registry lines). Qed.
+Print Assumptions C16_sortable_means_declared.
+
+(* a line that does not parse never makes the non-strict modes fail: parsing
+   one line under a scheme returns a record (whose errors all carry the line
+   number) or, in Strict mode only, raises the format exception *)
+Theorem C16_malformed_line_is_not_fatal :
+  forall (C W : Type) (sem : colsem C W) (s : scheme (cls C)) (line : str) ln (m : mode) lg,
+    scheme_wf s ->
+    (exists lg' r, from_line sem line None (Some s) ln (Some m) lg = (lg', Ok r) /\
+                   mline r = ln /\ at_line ln (merrs r)) \/
+    (m = Strict /\ exists e0, from_line sem line None (Some s) ln (Some m) lg = ([], Raise (MafFormat (etpe e0) (eline e0)))).
+Proof. intros C W sem s line ln m lg. exact (from_line_cases sem s line ln m lg). Qed.
+Print Assumptions C16_malformed_line_is_not_fatal.
+
+(* ---------- non-vacuity ---------- *)
+Definition t_sem : colsem unit unit :=
+  {| cs_build := fun _ _ => None; cs_invalid := fun _ _ => false; cs_str := fun _ _ => None;
+     cs_isinst := fun _ _ => true; cs_key_text := fun _ _ => None; cs_key_int := fun _ _ => None |}.
+(* digits only, enough for the example *)
+Definition t_int (s : str) : option Z :=
+  match s with [c] => if ((48 <=? c) && (c <=? 57))%N then Some (Z.of_N c - 48) else None | _ => None end.
+Definition t_read (lines : list str) (m : mode) :=
+  read_all t_sem [] (skey_of t_sem t_int) skey_lt lines (Some m) None.
+(* "#sort.order Coordinate" / "Chromosome<TAB>Start_Position<TAB>End_Position" / "c<TAB>5<TAB>5" / "c<TAB>3" / "c<TAB>1<TAB>1":
+   Silent: three records (the malformed middle line is a record with an error and is skipped by the order check);
+   Strict: the format exception (missing version); *)
+Definition so_line : str := [35;115;111;114;116;46;111;114;100;101;114;32;67;111;111;114;100;105;110;97;116;101]%N.
+Definition col_line : str := C_CHROM ++ [9%N] ++ C_START ++ [9%N] ++ C_END.
+Definition t_file : list str := [so_line; col_line; [99;9;53;9;53]%N; [99;9;51]%N; [99;9;49;9;49]%N].
+Example reads_three_records :
+  match t_read t_file Silent with Ok rs => length rs = 3%nat | Raise _ => False end.
+Proof. vm_compute. reflexivity. Qed.
+Example strict_raises_format : t_read t_file Strict = Raise (MafFormat 6 None).
+Proof. vm_compute. reflexivity. Qed.
+(* out of order: "c 5 5" then "c 3 3" *)
+Example ordering_error :
+  t_read [so_line; col_line; [99;9;53;9;53]%N; [99;9;51;9;51]%N] Silent = Raise ValueError.
+Proof. vm_compute. reflexivity. Qed.
+Example hypotheses_hold : Forall (@scheme_wf unit) [] /\ wf_override (@None (scheme (cls unit))).
+Proof. split; [constructor|intros o H; discriminate]. Qed.
